@@ -74,7 +74,7 @@ def c02(res: Result):
         tasks.append({"tid": f"r{i}", "tt": tt, "ops": [rng.choice([FULL_BFS, FULL_DFS])], "meta": "random-net full expansion"})
     tasks += gadget_tasks("g", [[FULL_BFS], [FULL_DFS]])
     tasks += feature_tasks("f", [[FULL_BFS], [FULL_DFS]], max_n=6)
-    invs = ["Inv_STRUCT", "Inv_XL", "Inv_RET", "Inv_WF", "Inv_PartialFaithful", "Inv_FullExact", "Inv_MinExact"]
+    invs = ["Inv_WF", "Inv_PartialFaithful", "Inv_FullExact", "Inv_MinExact"]
     res.cov["rule"] = ("TLC explores BFS/DFS/single expansions on all 256 two-variable networks; the real library runs a full "
                        "BFS or DFS on those and on random 3-6 variable networks (sources, constants, non-monotonic functions); "
                        "TLC recomputes the full hierarchy of percolated trap spaces from the truth tables and compares nodes, "
@@ -100,7 +100,7 @@ def c04(res: Result):
     tasks += random_tasks(rng, N(q, 500, 6000), [3, 3, 4, 4, 5] if q else [3, 4, 4, 5, 5, 6],
                           gen.PLAIN_KINDS + ["blockplain"], (1, 4), "r", tail=[FULL_BFS])
     tasks += feature_tasks("f", None, rng=rng, hist=(gen.PLAIN_KINDS + ["cand", "blockplain"], (2, 5), [FULL_BFS], 3 if q else 12))
-    invs = ["Inv_STRUCT", "Inv_XL", "Inv_RET", "Inv_ORACLE", "Inv_WF", "Inv_PartialFaithful", "Inv_PlainOnly", "Inv_FullExact"]
+    invs = ["Inv_WF", "Inv_PartialFaithful", "Inv_PlainOnly", "Inv_FullExact"]
     res.cov["rule"] = ("Histories of plain expansion calls (single node, BFS, DFS, minimal-space, attractor-seed, target-directed, block "
                        "without source shortcut; all start nodes, size/level/stack limits 0..3 and none): every abstract idle state of the "
                        "TLC model (all 256 two-variable networks, call depth <= 2 quick / 3 thorough) yields one history that is replayed in "
@@ -124,7 +124,13 @@ def c20(res: Result):
     # deep diagrams with percolation shortcuts: many single-node expansions in random order
     tasks += feature_tasks("f", None, kinds=["shortcut", "shortcut2", "deep", "modules"], max_n=6, rng=rng,
                            hist=(["exp", "exp", "exp", "exp", "bfs", "dfs", "skipmin"], (6, 14), [], 4 if q else 20))
-    invs = ["Inv_IDS", "Inv_DEPTHC", "Inv_IDX", "Inv_DepthExact", "Inv_IndexExact"]
+    tasks += gadget_tasks("gs", [[{"op": "build"}, {"op": "summary"}], [{"op": "bfs", "n": 1, "lvl": 0, "size": -1}, {"op": "allseeds"}, {"op": "summary"}]])
+    # find_node / summary / is_subgraph / is_isomorphic
+    tasks += random_tasks(rng, N(q, 400, 5000), [2, 3, 3, 4, 4, 5], ["exp", "bfs", "dfs", "min", "skipmin", "seeds", "find", "find", "find", "cmp", "cmp", "summary"],
+                          (3, 8), "q", tail=[{"op": "build"}, {"op": "summary"}, {"op": "cmp", "cmpops": [FULL_BFS]}])
+    tasks += feature_tasks("fs", [[{"op": "build"}, {"op": "summary"}], [FULL_BFS, {"op": "allseeds"}, {"op": "summary"}],
+                                  [{"op": "exp", "n": 1}, {"op": "cmp", "cmpops": [FULL_BFS]}, {"op": "cmp", "cmpops": []}, {"op": "cmp", "cmpops": [{"op": "exp", "n": 1}]}]])
+    invs = ["Inv_PROJ", "Inv_DepthExact", "Inv_IndexExact", "Inv_QUERY", "Inv_C01"]
     res.cov["rule"] = ("Same history generator as C04 extended with skip operations and pickling; after every call TLC compares ids, order, "
                        "depths and the key index with the model and checks depth = longest root path, depth() = max, ids contiguous, "
                        "len() = count on the logged state. find_node queries (existing spaces, proper sub/superspaces, random spaces), parsed "
@@ -254,7 +260,7 @@ def c14(res: Result):
         deep = [[{"op": "bfs", "n": 1, "lvl": 1, "size": -1}] + [{"op": rng.choice(["seeds", "sets", "cand"]), "n": k} for k in range(2, 14)] + tail + [{"op": "expseeds"}],
                 [{"op": "exp", "n": 1}, {"op": "exp", "n": 2}] + [{"op": "seeds", "n": k} for k in range(2, 10)] + tail + [{"op": "expseeds"}]]
         tasks += gadget_tasks("gq", deep, only=["nscc_latch", "nscc2"])
-    invs = ["Inv_CACHE", "Inv_CacheFresh", "Inv_OUT"]
+    invs = ["Inv_CacheFresh"]
     res.cov["rule"] = ("Histories interleaving attractor queries (candidates / seeds / sets, also on unexpanded nodes) with every way of giving "
                        "a node successors (single expansion, BFS/DFS, minimal-space with skip_ignored, skip_to_minimal, skip_remaining, block with "
                        "source shortcut, SCC attachment), reclamation and pickling. After every call TLC checks each cached list against the "
@@ -380,7 +386,7 @@ def c08(res: Result):
                     + [{"op": "cand", "n": k, "greedy": g, "sim": o} for k in (1, 2, 3, 4)])
     tasks += feature_tasks("f", pats)
     tasks += gadget_tasks("h", pats)
-    invs = ["Inv_Covers", "Inv_RET", "Inv_HANG"]
+    invs = ["Inv_Covers", "Inv_HANG"]
     res.cov["rule"] = ("node_attractor_candidates on expanded, unexpanded and skipped nodes under all 4 option combinations and a grid of "
                        "configuration values (candidate limit and optimisation threshold in {0,1,2,3,default}, simulation budget {0,1,default}, "
                        "NFVS threshold {0,default}); every returned list must consist of full states inside the node that hit every attractor of "
@@ -416,7 +422,7 @@ def c12(res: Result):
                           "meta": "symbolic fallback (candidate limit forces RuntimeError)"})
     tasks += feature_tasks("f", [[{"op": "sets", "n": 1}], [FULL_BFS] + [{"op": "sets", "n": k} for k in range(1, 9)],
                                  [{"op": "exp", "n": 1}] + [{"op": o, "n": k} for k in (1, 2, 3) for o in ("seeds", "reclaim", "sets")]])
-    invs = ["Inv_SetsFresh", "Inv_CacheFresh", "Inv_CACHE", "Inv_OUT", "Inv_HANG"]
+    invs = ["Inv_SetsFresh", "Inv_CacheFresh", "Inv_HANG"]
     res.cov["rule"] = ("Attractor sets requested before/after seeds and candidates, after reclamation and pickling, on expanded and unexpanded "
                        "nodes; and seeds via the symbolic fallback (forced by a tiny candidate limit). TLC checks that set i is exactly the "
                        "attractor containing seed i, over all variables, and that fallback seeds are exactly the node's own attractors. "
@@ -468,8 +474,7 @@ def c15(res: Result):
         if last["op"] == "tgt" and all(x == 2 for x in last["target"]):
             last["target"][0] = 1
         tasks.append({"tid": f"f{i}", "tt": tt, "ops": pre + [last], "faults": True, "meta": "fault enumeration"})
-    invs = ["Inv_RET", "Inv_STRUCT", "Inv_XL", "Inv_CACHE", "Inv_WF", "Inv_PartialFaithful", "Inv_CacheFresh", "Inv_RetFalse",
-            "Inv_MinExact", "Inv_FullExact", "Inv_HANG"]
+    invs = ["Inv_WF", "Inv_PartialFaithful", "Inv_CacheFresh", "Inv_RetFalse", "Inv_MinExact", "Inv_FullExact", "Inv_TrueMeansClosed", "Inv_HANG"]
     res.cov["rule"] = ("(a) every abstract state of the TLC model under size/level/stack limits 0..3, max_motifs_per_node in {0,1,2,default} and the "
                        "k-th solver call failing (k<=3) yields a history replayed in the library; (b) random histories under small resource limits "
                        "followed by a full BFS; (c) fault enumeration: for each solver call k of a call, a run in which that call raises, followed by "
@@ -857,7 +862,8 @@ def run_twin(res: Result, tasks, twin_invs, single_invs, label, nontrivial):
                   open(os.path.join(vd, "verdict.json"), "w"), indent=1)
         res.violations.append(vd)
     if single_invs and os.path.getsize(sf) > 0:
-        out2 = tlc.validate_traces(sf, "SDTrace", sdcheck.CONF_CLAUSES + single_invs, os.path.join(wd, "v_single"))
+        out2 = tlc.validate_traces(sf, "SDTrace", sdcheck.CONF_CLAUSES + single_invs + sdcheck.DIAGNOSTICS, os.path.join(wd, "v_single"))
+        sdcheck.note_deviations(res, out2)
         res.cov["traces_validated_against_impl"] += out2["traces"]
         res.cov["states"] += out2["states"]
         res.cov["transitions"] += out2["generated"]
@@ -945,7 +951,7 @@ def c16(res: Result):
                        "seeds, sets, return values and interventions after every corresponding call (raw candidate lists only where neither side reclaimed "
                        "them). A quarter of the networks is built through the AEON API with variables declared in non-alphabetical order. The runs with the "
                        "insertions are also validated event by event by SDTrace. Non-trivial: distinct (network, history, insertion point) with >= 3 nodes.")
-    run_twin(res, tasks, ["Inv_POST", "Inv_OUT"], ["Inv_STRUCT", "Inv_IDS", "Inv_DEPTHC", "Inv_IDX", "Inv_CACHE", "Inv_RET", "Inv_IndexExact"],
+    run_twin(res, tasks, ["Inv_POST", "Inv_OUT"], ["Inv_IndexExact", "Inv_WF"],
              "transp", lambda t: len(t["b"][-1]["post"]["nodes"]) >= 3)
 
 
@@ -1050,7 +1056,7 @@ def run_core_models(res: Result, q: bool, rng):
     res.cov["models_not_covered"] = [{"model": x["skipped"], "why": x["why"]} for x in skipped][:200]
     if not done:
         return
-    o1 = tlc.validate_traces(sf, "SDTrace", sdcheck.CONF_CLAUSES + ["Inv_WF", "Inv_PartialFaithful", "Inv_MinExact", "Inv_C01"], os.path.join(wd, "v_sd"))
+    o1 = tlc.validate_traces(sf, "SDTrace", ["Inv_WF", "Inv_PartialFaithful", "Inv_MinExact", "Inv_C01"], os.path.join(wd, "v_sd"))
     o2 = tlc.validate_traces(pf, "PureTrace", ["Inv_PERC", "Inv_RAISED", "Inv_UNKNOWN"], os.path.join(wd, "v_pure"))
     for o in (o1, o2):
         res.cov["traces_validated_against_impl"] += o["traces"]
@@ -1138,13 +1144,13 @@ def selftests(res: Result):
     """run after the property's own workload (thorough tier): the trace files of that workload are corrupted"""
     base = os.path.join(sdcheck.WORK, res.pid)
     if res.pid == "C20":
-        binding_selftest(res, os.path.join(base, "tr_meta", "traces.ndjson"), "SDTrace", ["Inv_DEPTHC", "Inv_DepthExact"], _corrupt_sd_depth, "depth+1")
+        binding_selftest(res, os.path.join(base, "tr_meta", "traces.ndjson"), "SDTrace", ["Inv_DepthExact"], _corrupt_sd_depth, "depth+1")
     if res.pid in ("C02", "C04"):
         lab = "full" if res.pid == "C02" else "plain"
-        binding_selftest(res, os.path.join(base, "tr_" + lab, "traces.ndjson"), "SDTrace", ["Inv_STRUCT", "Inv_PartialFaithful"], _corrupt_sd_edge, "edge dropped")
+        binding_selftest(res, os.path.join(base, "tr_" + lab, "traces.ndjson"), "SDTrace", ["Inv_PartialFaithful"], _corrupt_sd_edge, "edge dropped")
     if res.pid in ("C01", "C12", "C14"):
         lab = {"C01": "seeds", "C12": "sets", "C14": "cache"}[res.pid]
-        binding_selftest(res, os.path.join(base, "tr_" + lab, "traces.ndjson"), "SDTrace", ["Inv_CacheFresh", "Inv_C01", "Inv_CACHE"], _corrupt_sd_seed, "seed duplicated")
+        binding_selftest(res, os.path.join(base, "tr_" + lab, "traces.ndjson"), "SDTrace", ["Inv_CacheFresh", "Inv_C01"], _corrupt_sd_seed, "seed duplicated")
     if res.pid == "C09":
         def c(tr):
             for e in tr["events"]:
